@@ -10,7 +10,9 @@ DELIMS = [('E', 'E', ''), ('EOF', 'EOF', ''), ("'E'", 'E', '+quoted-delim'), ('"
 BODIES = [[], ['x'], ['x', 'y z'], [''], ['', 'x', ''], ['Ex'], [' E'], ['xE'], ['\tq'], ['\t\tq', '\tE2'], ['a\\', 'b'], ['$(a)', '`b`'], ['#c'], ['E E']]
 FOLLOW = ['', 'after', 'after x\n', '\nafter']
 WRAPS = [('%s', ''), ('%s | c', ''), ('c && %s', ''), ('c; %s', ''), ('( %s\n)', '+compound'), ('{ %s\n}', '+compound'), ('if %s\nthen c; fi', '+compound'),
-         ('f() { %s\n}', '+compound'), ('while %s\ndo c; done', '+compound'), ('case x in a) %s\n;; esac', '+compound'), ('! %s', ''), ('%s &', '')]
+         ('f() { %s\n}', '+compound'), ('while %s\ndo c; done', '+compound'), ('case x in a) %s\n;; esac', '+compound'), ('! %s', ''), ('%s &', ''),
+         # the operator line is continued on the next line / a token follows the command inside a compound (the redirect is reduced before the newline is read)
+         ('%s |\nc', ''), ('%s &&\nc', ''), ('c | %s ||\nd', ''), ('{ %s;\n}', ''), ('( %s;\n)', ''), ('if %s; then\nc; fi', ''), ('while %s; do\nc; done', ''), ('f() { %s;\n}', '')]
 
 def build(rng):
     k = rng.choice([1, 1, 1, 2, 2, 3])
@@ -35,6 +37,8 @@ def build(rng):
         head, tail = line.split('\n', 1); tail = '\n' + tail
     else:
         head, tail = line, ''
+    # a comment may end the operator line
+    if rng.random() < 0.25: head += rng.choice([' # c', '\t#x <<Z', ' # `'])
     text = head + '\n'
     oppos = []
     pos = 0
